@@ -160,11 +160,24 @@ def _run_vc(args):
 
         tasks = []
 
-        def decide(name, fmls, goal, kind="post"):  # deferred: the obligations of one VC are discharged in parallel below
-            tasks.append((name, list(fmls), goal, kind))
+        def decide(name, fmls, goal, kind="post", insts=None):  # deferred: the obligations of one VC are discharged in parallel below
+            tasks.append((name, list(fmls), goal, kind, insts))
 
-        def solve_task(name, fmls, goal, kind):
-            r = solve.check_unsat(list(fmls) + [z3.Not(goal)], timeout_ms=to, crosscheck=crosscheck)
+        def solve_task(name, fmls, goal, kind, insts=None):
+            r = None
+            if insts:
+                # quantifier-free attempt: quantified hypotheses dropped (weakening), the sidecar's explicit instances added
+                qf = [h for h in fmls if not ip.has_quantifier(h)]
+                if len(qf) < len(fmls):
+                    r0 = solve.check_unsat(qf + list(insts) + [z3.Not(goal)], timeout_ms=min(to, 10000), cvc5_fallback=False, want_model=False)
+                    if r0.status == "unsat":
+                        r = solve.Result("unsat", "z3[explicit instances]", r0.ms)
+                    if r is None:
+                        # the instances did not suffice: one attempt with the quantified hypotheses, short budget (an obligation
+                        # that needs them and is not decided quickly is reported undecided, never a violation without a model)
+                        r = solve.check_unsat(list(fmls) + [z3.Not(goal)], timeout_ms=min(to, 10000), cvc5_fallback=False, crosscheck=crosscheck)
+            if r is None:
+                r = solve.check_unsat(list(fmls) + [z3.Not(goal)], timeout_ms=to, crosscheck=crosscheck)
             rec = {"name": name, "status": r.status, "backend": r.backend, "ms": round(r.ms, 1), "kind": kind, "note": r.note}
             if r.status == "sat" and r.model is not None and any(z3.is_string(v) for v in vc.inputs.values() if ip.is_z3(v)):
                 # counterexample over strings: prefer one made of file-name-safe characters, so that it can be replayed natively
@@ -192,7 +205,7 @@ def _run_vc(args):
                 if key in dedup:  # the same obligation reached along paths that forked later
                     continue
                 dedup.add(key)
-                decide("%s/%s#path%d.%d" % (vc.name, ob.name, i, oi), list(ob.hyps), ob.goal, kind="path")
+                decide("%s/%s#path%d.%d" % (vc.name, ob.name, i, oi), list(ob.hyps), ob.goal, kind="path", insts=ob.insts)
         real_paths = [p for p in paths if p.outcome != "aborted"]
         for pname, fn in vc.posts:
             # one obligation per (postcondition, path): small queries discharge far faster than the merged formula
@@ -211,10 +224,10 @@ def _run_vc(args):
                             label, gg = gg
                         if gg is True or gg is False:
                             gg = z3.BoolVal(gg)
-                        decide("%s/%s#path%d.%s" % (vc.name, pname, pi, label), hyps + list(p.pc), gg)
+                        decide("%s/%s#path%d.%s" % (vc.name, pname, pi, label), hyps + list(p.pc), gg, insts=p.insts or None)
                     continue
                 n_emitted += 1
-                decide("%s/%s#path%d" % (vc.name, pname, pi), hyps + list(p.pc), g_)
+                decide("%s/%s#path%d" % (vc.name, pname, pi), hyps + list(p.pc), g_, insts=p.insts or None)
             if n_emitted == 0:
                 decide("%s/%s" % (vc.name, pname), hyps, z3.BoolVal(bool(real_paths)))
         for lname, lh, lg in vc.lemmas:
